@@ -114,9 +114,32 @@ fn case_strategy(ctx: &Ctx) -> BoxedStrategy<Case> {
                 prop_oneof![3 => Just(Op::Flush), 3 => (1u8..=3).prop_map(Op::Compact), 2 => Just(Op::Restart), 1 => Just(Op::Barrier)],
                 1..=3,
             );
-            (Just(cfg), Just(types), Just(n_ctx), clocked_ops, tail, prop::collection::vec(q, 6..=tier.pick(14, 24)))
+            // the payload time values of the shared generators sit on a half-hour grid; a third of the cases stretch the grid
+            // to days, three days or thirty days per step (values and literals alike), so that one zone spans weeks or months
+            let stretch = prop_oneof![4 => Just(1800i64), 1 => Just(86_400i64), 1 => Just(3 * 86_400i64), 1 => Just(30 * 86_400i64)];
+            (Just(cfg), Just(types), Just(n_ctx), clocked_ops, tail, prop::collection::vec(q, 6..=tier.pick(14, 24)), stretch)
         })
-        .prop_map(|(cfg, types, n_ctx, ops, tail, queries)| Case { cfg, types, n_ctx, ops, tail, queries, excluded: 0 })
+        .prop_map(|(cfg, types, n_ctx, mut ops, tail, mut queries, step)| {
+            if step != 1800 {
+                for op in ops.iter_mut() {
+                    if let Op::Store(ev) = op {
+                        for (f, v) in types[ev.ty].fields.iter().zip(ev.vals.iter_mut()) {
+                            if matches!(f.ty, FT::Datetime | FT::Date) {
+                                if let Some(x) = v.as_i64() {
+                                    *v = json!(crate::props::c08::remap_time(x, 1_700_000_000, step));
+                                }
+                            }
+                        }
+                    }
+                }
+                for q in queries.iter_mut() {
+                    if let Some(w) = q.wh.as_mut() {
+                        crate::props::c08::remap_where(&types[q.ty], w, 1_700_000_000, step);
+                    }
+                }
+            }
+            Case { cfg, types, n_ctx, ops, tail, queries, excluded: 0 }
+        })
         .prop_map(move |mut c| {
             // exclusion of open finding classes by construction (counted as excluded_known at run time)
             let types = c.types.clone();
